@@ -118,13 +118,15 @@ class LoopSpec:
         self.kind = kind
 
 
+import os as _os
+_TRACE = bool(_os.environ.get("PYVC_TRACE"))
 QUICK_TIMEOUT_MS = 20000
 FEAS_TIMEOUT_MS = 3000
 
 
 class Engine:
     def __init__(self, loader, decisions=(), contracts=None, loops=None, unit=None, timeout_ms=QUICK_TIMEOUT_MS,
-                 tables=None, inline=None):
+                 tables=None, inline=None, replay=None):
         self.loader = loader
         self.decisions = list(decisions)
         self.dpos = 0
@@ -149,6 +151,10 @@ class Engine:
         self.notes = []
         self.heap_log = []        # (op, obj, detail) for frame checks
         self.loop_guard = None
+        # solver answers of the run this one was forked from: a child run repeats its parent's queries up to the
+        # fork point (execution is deterministic), so those answers are replayed instead of recomputed
+        self.replay = list(replay or [])
+        self.qlog = []
         self.witness_fn = None
         self._last_loop_idx = 0
 
@@ -193,9 +199,20 @@ class Engine:
         self.solver.add(t)
 
     def _check(self, *extra):
+        k = len(self.qlog)
+        if k < len(self.replay):
+            r = self.replay[k]
+            if not isinstance(r, str):
+                raise EngineError("replay log out of step (non-deterministic execution)")
+            self.qlog.append(r)
+            return {"sat": z3.sat, "unsat": z3.unsat}.get(r, z3.unknown)
         t0 = time.time()
         r = self.solver.check(*extra)
-        self.solver_seconds += time.time() - t0
+        dt = time.time() - t0
+        self.solver_seconds += dt
+        if dt > 0.3 and _TRACE:
+            print("SLOW feasibility check %.1fs -> %s: %s" % (dt, r, str(extra)[:300].replace("\n", " ")))
+        self.qlog.append("sat" if r == z3.sat else ("unsat" if r == z3.unsat else "unknown"))
         return r
 
     def feasible(self, cond):
@@ -207,7 +224,30 @@ class Engine:
     def implied(self, cond):
         if isinstance(cond, bool):
             return cond
+        if self.arith_decide(as_bool_term(cond)) is True:
+            return True
         return self._check(z3.Not(as_bool_term(cond))) == z3.unsat
+
+    def arith_decide(self, t):
+        """True / False when the purely arithmetic facts (lengths abstracted) already settle t, else None.
+        Logged like a solver answer so that forked children replay it."""
+        k = len(self.qlog)
+        if k < len(self.replay):
+            rec = self.replay[k]
+            if not (isinstance(rec, str) and rec.startswith("arith:")):
+                raise EngineError("replay log out of step (arith)")
+            self.qlog.append(rec)
+            return {"arith:T": True, "arith:F": False}.get(rec)
+        from pyvc import backends
+        t0 = time.time()
+        r = None
+        if backends.arith_prepass(self.facts, t, 1000):
+            r = True
+        elif backends.arith_prepass(self.facts, z3.Not(t), 1000):
+            r = False
+        self.solver_seconds += time.time() - t0
+        self.qlog.append("arith:T" if r is True else ("arith:F" if r is False else "arith:-"))
+        return r
 
     def next_decision(self, n):
         if self.dpos >= len(self.decisions):
@@ -222,6 +262,9 @@ class Engine:
         if isinstance(cond, bool):
             return cond
         t = cond.t
+        pre = self.arith_decide(t)
+        if pre is not None:
+            return pre
         can_t = self._check(t) != z3.unsat
         can_f = self._check(z3.Not(t)) != z3.unsat
         if can_t and can_f:
@@ -257,11 +300,29 @@ class Engine:
         if cond is True:
             self.obligations.append(Obligation(name, "proved", 0.0, "eval", path=self.path_id, kind=kind))
             return True
-        t0 = time.time()
         if cond is False:
             goal = z3.BoolVal(False)
         else:
             goal = as_bool_term(cond)
+        k = len(self.qlog)
+        if k < len(self.replay):
+            rec = self.replay[k]
+            if not (isinstance(rec, tuple) and rec[0] == name):
+                raise EngineError("replay log out of step at obligation %s" % name)
+            self.qlog.append(rec)
+            if rec[1] == "proved":
+                self.assume(SBool(goal))
+            return rec[1] == "proved"          # reported once, by the run that computed it
+        t0 = time.time()
+        from pyvc import backends
+        if backends.arith_prepass(self.facts, goal):
+            dt = time.time() - t0
+            self.solver_seconds += dt
+            self.obligations.append(Obligation(name, "proved", dt, "z3-arith", path=self.path_id,
+                                               detail=detail or (str(z3.simplify(goal))[:300]), kind=kind))
+            self.qlog.append((name, "proved"))
+            self.assume(SBool(goal))
+            return True
         s = self.solver
         s.push()
         s.set("timeout", self.timeout_ms)
@@ -271,6 +332,9 @@ class Engine:
         if r == z3.sat:
             try:
                 model = s.model()
+                if not self.model_ok(s, model):
+                    r = z3.unknown          # the candidate model violates an assertion: not a counterexample
+                    model = None
             except z3.Z3Exception:
                 model = None
         s.pop()
@@ -299,9 +363,24 @@ class Engine:
         ob = Obligation(name, status, dt, backend, model=summary,
                         path=self.path_id, detail=detail or (str(z3.simplify(goal))[:300]), kind=kind)
         self.obligations.append(ob)
+        self.qlog.append((name, status))
         if status == "proved":
             self.assume(SBool(goal))     # proved facts may be used afterwards
         return status == "proved"
+
+    def model_ok(self, s, model):
+        """a `sat` answer is accepted only if the model really satisfies every quantifier-free assertion (z3's
+        sequence solver combined with uninterpreted functions can return candidate models that do not)"""
+        try:
+            for a in s.assertions():
+                if z3.is_quantifier(a):
+                    continue
+                v = model.eval(a, model_completion=True)
+                if z3.is_false(v):
+                    return False
+        except z3.Z3Exception:
+            return True
+        return True
 
     def model_summary(self, model):
         out = {}
@@ -1478,7 +1557,38 @@ class Engine:
             if inner is not None:
                 from pyvc import lib
                 return lib.wrap_like(self, base, self.get_slice(inner, lo, hi))
+        if isinstance(base, SSeq):
+            r = self.simple_slice(base, lo, hi)
+            if r is not None:
+                return r
         return ops.seq_slice(base, lo, hi)
+
+    def simple_slice(self, s, lo, hi):
+        """slice whose bounds the path condition places inside the sequence: no clamping terms are needed"""
+        n = z3.Length(s.t)
+        def norm(x, default):
+            if x is None:
+                return default
+            xt = as_int_term(x)
+            if isinstance(x, int) and x < 0:
+                xt = n + x
+            elif not isinstance(x, int):
+                if self.implied(mk_bool(xt >= 0)):
+                    pass
+                elif self.implied(mk_bool(xt < 0)):
+                    xt = n + xt
+                else:
+                    return None
+            if self.implied(mk_bool(z3.And(xt >= 0, xt <= n))):
+                return z3.simplify(xt)
+            return None
+        a = norm(lo, z3.IntVal(0))
+        b = norm(hi, n)
+        if a is None or b is None:
+            return None
+        if not self.implied(mk_bool(a <= b)):
+            return None
+        return SSeq(z3.simplify(z3.Extract(s.t, a, b - a)), s.kind, s.elem, rng=s.rng)
 
     def get_item(self, base, key):
         from pyvc import lib
